@@ -46,7 +46,7 @@ CHECKS = {
               " Callers optionally use the API in unusual but legal orders: CloseSend twice; further receives after the end (which must report the same outcome again)."
               " The scripted-peer sub-check reaches the peer directly, through a goat.Proxy, or as a logical connection of a goat.Demux."),
         jobs=[dict(test="TestC03", quick=4800, thorough=40000), dict(test="TestC03Foreign", quick=800, thorough=10000, shards=4), dict(test="TestC03Race", quick=400, thorough=5000, shards=4), dict(test="FuzzC03", kind="fuzz", quick=0, thorough=90)],
-        floors={"TestC03:pos=mid-stream": 0.03, "TestC03:intercept=true": 0.1, "TestC03:api_order=close-twice": 0.05, "TestC03Foreign:foreign.via=proxy": 0.12, "TestC03Foreign:foreign.via=demux": 0.12},
+        floors={"TestC03:pos=mid-stream": 0.03, "TestC03:intercept=true": 0.1, "TestC03:api_order=close-twice": 0.05, "TestC03Foreign:foreign.via=proxy": 0.08, "TestC03Foreign:foreign.via=demux": 0.08},
         assumptions=COMMON_ASSUMPTIONS,
     ),
     "C04": dict(
@@ -137,7 +137,7 @@ CHECKS = {
               " 0..12 unary requests: with more than eight (goat's unary workers per connection) only Stop is used as the ending."
               " Ending resetfail: the response write that fails is that of a reset (answer to a body for an unknown stream)."),
         jobs=[dict(test="TestC10", quick=4800, thorough=30000), dict(test="FuzzC10", kind="fuzz", quick=0, thorough=90)],
-        floors={"TestC10:ending=readfail": 0.15, "TestC10:ending=writefail": 0.15, "TestC10:ending=stop": 0.15, "TestC10:parked-in-send": 0.1, "TestC10:orphan=true": 0.2},
+        floors={"TestC10:ending=readfail": 0.1, "TestC10:ending=writefail": 0.1, "TestC10:ending=stop": 0.12, "TestC10:parked-in-send": 0.1, "TestC10:orphan=true": 0.2},
         assumptions=COMMON_ASSUMPTIONS + ["cancelling the context passed to Serve is not among the endings the property lists and is not generated"],
     ),
     "C12": dict(
